@@ -572,11 +572,16 @@ struct CfgCase {
     x: usize,
     d: usize,
     mask: u32,
+    /// what the entry called `name` is: 0 a regular file, 1 a link whose target is missing, 2 a directory
+    kind: usize,
 }
 
-const CFG_N: u64 = 2 * 3 * 3 * 6 * 32;
+const CFG_BASE_N: u64 = 2 * 3 * 3 * 6 * 32;
+const CFG_N: u64 = 3 * CFG_BASE_N;
 
 fn cfg_case(idx: u64) -> Option<CfgCase> {
+    let kind = (idx / CFG_BASE_N) as usize;
+    let idx = idx % CFG_BASE_N;
     let mask = (idx % 32) as u32;
     let r = idx / 32;
     let d = (r % 6) as usize;
@@ -589,7 +594,7 @@ fn cfg_case(idx: u64) -> Option<CfgCase> {
     if b == Backend::Stdfs && mask >= 16 {
         return None;
     }
-    Some(CfgCase { b, h, x, d, mask })
+    Some(CfgCase { b, h, x, d, mask, kind })
 }
 
 struct CfgEval {
@@ -611,7 +616,12 @@ fn eval_cfg(c: CfgCase, l: &Layout) -> CfgEval {
             for d in &with_file {
                 let r = catch_unwind(AssertUnwindSafe(|| {
                     mem.mkdir_p(d).map_err(|e| e.to_string())?;
-                    mem.write_all(Path::new(d).join(NAME), "x").map_err(|e| e.to_string())
+                    let p = Path::new(d).join(NAME);
+                    match c.kind {
+                        0 => mem.write_all(&p, "x").map_err(|e| e.to_string()),
+                        1 => mem.symlink(&p, "/rvmc-c18-nowhere").map(|_| ()).map_err(|e| e.to_string()),
+                        _ => mem.mkdir_p(&p).map(|_| ()).map_err(|e| e.to_string()),
+                    }
                 }));
                 if !matches!(r, Ok(Ok(()))) {
                     machinery(&format!("cannot set up Memfs directory {}: {:?}", d, r.map_err(|e| panic_message(&e))));
@@ -624,7 +634,13 @@ fn eval_cfg(c: CfgCase, l: &Layout) -> CfgEval {
             std::env::set_current_dir(&l.area).unwrap_or_else(|e| machinery(&format!("chdir {}: {}", l.area, e)));
             for d in &with_file {
                 std::fs::create_dir_all(d).unwrap_or_else(|e| machinery(&format!("create {}: {}", d, e)));
-                std::fs::write(Path::new(d).join(NAME), "x").unwrap_or_else(|e| machinery(&format!("write in {}: {}", d, e)));
+                let p = Path::new(d).join(NAME);
+                match c.kind {
+                    0 => std::fs::write(&p, "x"),
+                    1 => std::os::unix::fs::symlink("/rvmc-c18-nowhere", &p),
+                    _ => std::fs::create_dir(&p),
+                }
+                .unwrap_or_else(|e| machinery(&format!("create entry in {}: {}", d, e)));
             }
         },
     }
@@ -761,7 +777,8 @@ fn cfg_case_json(c: CfgCase) -> J {
         ("xdg_config_home", J::i(c.x as i64)),
         ("xdg_config_dirs", J::i(c.d as i64)),
         ("mask", J::i(c.mask as i64)),
-        ("legend", J::s("home/xdg_config_home: 0 unset, 1 empty, 2 set; xdg_config_dirs: 0 unset, 1 empty, 2 'cp', 3 'cp:cq', 4 ':cp::cq:'; mask bit i = file present in [XDG_CONFIG_HOME dir, HOME/.config, cp, cq, /etc/xdg][i]")),
+        ("kind", J::i(c.kind as i64)),
+        ("legend", J::s("home/xdg_config_home: 0 unset, 1 empty, 2 set; xdg_config_dirs: 0 unset, 1 empty, 2 'cp', 3 'cp:cq', 4 ':cp::cq:'; mask bit i = file present in [XDG_CONFIG_HOME dir, HOME/.config, cp, cq, /etc/xdg][i]; kind of that entry: 0 regular file, 1 link whose target is missing, 2 directory")),
     ])
 }
 
@@ -1145,7 +1162,7 @@ pub fn run(ctx: &Ctx) -> i32 {
         (
             "bounds",
             J::s(format!(
-                "dirs: {:?} each in forms {:?} of {{0 unset, 1 \"\", 2 '/x<tag>', 3 'rel/x<tag>/'}} x {:?} each in list forms {:?} of {{0 unset, 1 \"\", 2 'p', 3 'p:q', 4 ':p::q:', 5 'relp:q/', 6 '::'}} = {} configurations + each list variable alone over every list of 1..=4 segments from {{\"\", p, p/, q, /}} (adjacent repeats, trailing separators, root) + 10 foreign variables (TMPDIR, TMP, USER, ...) each added to the all-unset configuration and to the one with every other variable set: no result may change; config_dir: backend {{Memfs, Stdfs}} x HOME x XDG_CONFIG_HOME {{unset, \"\", value}} x XDG_CONFIG_DIRS (6 forms incl. one that repeats the user directory) x every subset of [XDG_CONFIG_HOME dir, HOME/.config, cp, cq, /etc/xdg] holding the file (/etc/xdg only on Memfs), decoy directories of XDG_DATA_HOME, XDG_DATA_DIRS, XDG_CACHE_HOME always hold it; getrids: uid {:?} x gid {:?} x SUDO_UID {:?} x SUDO_GID {:?}",
+                "dirs: {:?} each in forms {:?} of {{0 unset, 1 \"\", 2 '/x<tag>', 3 'rel/x<tag>/'}} x {:?} each in list forms {:?} of {{0 unset, 1 \"\", 2 'p', 3 'p:q', 4 ':p::q:', 5 'relp:q/', 6 '::'}} = {} configurations + each list variable alone over every list of 1..=4 segments from {{\"\", p, p/, q, /}} (adjacent repeats, trailing separators, root) + 10 foreign variables (TMPDIR, TMP, USER, ...) each added to the all-unset configuration and to the one with every other variable set: no result may change; config_dir: backend {{Memfs, Stdfs}} x HOME x XDG_CONFIG_HOME {{unset, \"\", value}} x XDG_CONFIG_DIRS (6 forms incl. one that repeats the user directory) x every subset of [XDG_CONFIG_HOME dir, HOME/.config, cp, cq, /etc/xdg] holding the name x the name being one of (a regular file, a link whose target is missing, a directory) (/etc/xdg only on Memfs), decoy directories of XDG_DATA_HOME, XDG_DATA_DIRS, XDG_CACHE_HOME always hold it; getrids: uid {:?} x gid {:?} x SUDO_UID {:?} x SUDO_GID {:?}",
                 SINGLE.iter().map(|x| x.0).collect::<Vec<_>>(),
                 sp.singles,
                 LISTS.iter().map(|x| x.0).collect::<Vec<_>>(),
@@ -1189,7 +1206,8 @@ fn replay(ctx: &Ctx, p: &std::path::Path, sb: &Sandbox) -> i32 {
         "config_dir" => {
             let gi = |k: &str| case.get(k).and_then(|x| x.as_i64()).expect("case field") as u64;
             let b = if case.get("backend").and_then(|x| x.as_str()) == Some("stdfs") { 1 } else { 0 };
-            let idx = (((b * 3 + gi("home")) * 3 + gi("xdg_config_home")) * 5 + gi("xdg_config_dirs")) * 32 + gi("mask");
+            let kind = case.get("kind").and_then(|x| x.as_i64()).unwrap_or(0) as u64;
+            let idx = kind * CFG_BASE_N + (((b * 3 + gi("home")) * 3 + gi("xdg_config_home")) * 6 + gi("xdg_config_dirs")) * 32 + gi("mask");
             let c = cfg_case(idx).expect("valid case");
             let area = cfg_area(&sb.root, c, "replay");
             let l = layout(&area);
